@@ -23,9 +23,12 @@ emu_ev(struct emu_ev *ev, const struct ovni_ev *oev,
 		ev->has_payload = 1;
 		ev->payload = &oev->payload;
 
-		if (oev->header.flags & OVNI_EV_JUMBO) {
+		/* The struct is reused for every event, so always set the
+		 * flag from the current event */
+		if (oev->header.flags & OVNI_EV_JUMBO)
 			ev->is_jumbo = 1;
-		}
+		else
+			ev->is_jumbo = 0;
 	} else {
 		ev->has_payload = 0;
 		ev->payload = NULL;
